@@ -75,11 +75,13 @@ func (c *counter) Inc(v int64) {
 
 func (c *counter) value() int64 {
 	curr := atomic.LoadInt64(&c.curr)
+	verifYield(1)
 
 	prev := atomic.LoadInt64(&c.prev)
 	if prev == curr {
 		return 0
 	}
+	verifYield(2)
 	atomic.StoreInt64(&c.prev, curr)
 	return curr - prev
 }
@@ -118,6 +120,7 @@ func newGauge(cachedGauge CachedGauge) *gauge {
 
 func (g *gauge) Update(v float64) {
 	atomic.StoreUint64(&g.curr, math.Float64bits(v))
+	verifYield(11)
 	atomic.StoreUint64(&g.updated, 1)
 }
 
@@ -127,12 +130,14 @@ func (g *gauge) value() float64 {
 
 func (g *gauge) report(name string, tags map[string]string, r StatsReporter) {
 	if atomic.SwapUint64(&g.updated, 0) == 1 {
+		verifYield(21)
 		r.ReportGauge(name, tags, g.value())
 	}
 }
 
 func (g *gauge) cachedReport() {
 	if atomic.SwapUint64(&g.updated, 0) == 1 {
+		verifYield(22)
 		g.cachedGauge.ReportGauge(g.value())
 	}
 }
